@@ -12,7 +12,7 @@ package main
 //
 // No pass/fail logic: after every step the whole store is projected (tr.Snapshot, message dates
 // mapped to whole hours of age) and recorded together with the error class DoScan returned and
-// "returned within retentionSleep + 2 s of the shutdown request" booleans.  TLC judges the
+// "returned within retentionSleep/4 + 300 ms (scan) / + 2 s (run loop) of the shutdown request" booleans.  TLC judges the
 // trace against spec/Retention.tla with spec/RetentionTrace.tla.
 
 import (
@@ -454,7 +454,9 @@ func (r *retRun) endScan(err error, returned bool) {
 	}
 	el := now.Sub(from)
 	ev := tr.Ev{"a": "scanend", "rc": retErrClass(err), "r": errClass(err), "returned": returned, "cancelled": fired,
-		"within": !fired || el <= r.sleep+2*time.Second, "elapsed_ms": el.Milliseconds(), "visits": r.visits}
+		// "promptly": the scanner waits in a select on the context, so a request is seen at once - also in the middle of its
+		// pause between two mailboxes, however long that pause is configured (a quarter of it plus 300 ms is allowed)
+		"within": !fired || el <= r.sleep/4+300*time.Millisecond, "elapsed_ms": el.Milliseconds(), "visits": r.visits}
 	r.snapInto(ev)
 	r.emit(ev)
 	if r.loopMode && r.exitCh != nil {
@@ -507,7 +509,7 @@ func runRetentionBehaviour(b retBehaviour, seed int64, scratch string) ([]tr.Ev,
 		}
 	}
 	rs := storage.NewRetentionScanner(config.Storage{RetentionPeriod: time.Duration(b.PeriodH) * time.Hour, RetentionSleep: r.sleep}, &retWrap{Store: st, r: r})
-	bound := r.sleep + 2*time.Second
+	bound := r.sleep/4 + 2*time.Second
 	switch b.Mode {
 	case "scan":
 		for i := range b.Steps {
